@@ -243,3 +243,234 @@ Proof. vm_compute. reflexivity. Qed.
 Example C13_ex_frm :
   frm_cds [mkMH 0 0 10 20; mkMH 1 1 5 40; mkMH 2 0 30 40; mkMH 3 0 0 40; mkMH 4 2 7 (-2)] = [mkMH 1 1 5 40; mkMH 2 0 30 40].
 Proof. vm_compute. reflexivity. Qed.
+
+(* ====================================================================== deepening round *)
+(* ---- filter_results, one gene under one equivalence group (fr_cds).  Domain fwf: hit_start <
+   hit_end, distinct objects.  fov a b = "different objects with hsp_overlap_size > 20";
+   fconn cds = chains of fov through the gene's hits (connected components);
+   fr_groups cds = the groups the pair loop builds (= overlapping_groups, first conjunct). *)
+
+(* (a) what the groups are, for EVERY input order: non-empty sets of the gene's hits, each chained
+   together by overlaps (so inside one component), and every overlapping pair lies in one of them *)
+Theorem C13_filter_groups_partial : forall cds, fwf cds = true ->
+  overlapping_groups cds = Ok (fr_groups cds) /\
+  (forall g, In g (fr_groups cds) -> incl g cds /\ (forall x y, In x g -> In y g -> fconn cds x y) /\ g <> []) /\
+  (forall h o, In h cds -> In o cds -> fov h o = true -> exists g, In g (fr_groups cds) /\ In h g /\ In o g).
+Proof. exact C13_filter_groups_proof. Qed.
+Print Assumptions C13_filter_groups_partial.
+
+(* (a) a group that contains every group it meets IS the connected component of its members *)
+Theorem C13_filter_results_components : forall cds g h, fwf cds = true -> In g (fr_groups cds) ->
+  fclosed (fr_groups cds) g = true -> In h g -> forall x, In x g <-> fconn cds h x.
+Proof. exact C13_filter_components_proof. Qed.
+Print Assumptions C13_filter_results_components.
+
+(* (a) ... but the loop never unites two groups, and without that hypothesis the clause "the single
+   best-scoring hit of each overlapping group survives" is FALSE (finding class
+   filter_groups_not_merged): a chain of five hits listed as v0 v3 v1 v4 v2 keeps both chain ends *)
+Theorem C13_filter_results_components_refuted : exists eqg results mine,
+  fwf mine = true /\ distinct_scores mine = true /\ competing eqg mine = true /\
+  exists s' mine', fr_cds eqg (Ok (results, [])) mine = (Ok s', mine') /\
+    exists x y, In x mine' /\ In y mine' /\ x <> y /\ fconn mine x y.
+Proof. exact fr_components_refuted. Qed.
+Print Assumptions C13_filter_results_components_refuted.
+
+(* (c) "the result is the same for every ordering of the input" is FALSE for the same five hits *)
+Theorem C13_filter_results_order_refuted : exists eqg results mine mine2,
+  Permutation mine mine2 /\ fwf mine = true /\ distinct_scores mine = true /\ competing eqg mine = true /\
+  exists s1 m1 s2 m2, fr_cds eqg (Ok (results, [])) mine = (Ok s1, m1) /\
+                      fr_cds eqg (Ok (results, [])) mine2 = (Ok s2, m2) /\
+                      exists h, In h m1 /\ ~ In h m2.
+Proof. exact fr_order_refuted. Qed.
+Print Assumptions C13_filter_results_order_refuted.
+
+(* (b) for every input of the domain: the gene's list and the global list are FILTERED (order kept,
+   nothing else touched) by fr_keep; the assert fires iff nothing is kept ... *)
+Theorem C13_filter_results_survivors : forall eqg results removed mine,
+  fwf mine = true -> competing eqg mine = true -> fr_J (results, mine, removed) ->
+  exists removed',
+    fr_cds eqg (Ok (results, removed)) mine
+    = (match filter (fr_keep mine) mine with
+       | [] => Err E_Assert
+       | _ => Ok (filter (fr_keep mine) results, removed')
+       end, filter (fr_keep mine) mine).
+Proof. exact fr_cds_survivors. Qed.
+Print Assumptions C13_filter_results_survivors.
+
+(* ... a hit is removed iff it belongs to a group whose best is another hit (so hits outside every
+   group stay, and exactly the best of a group survives that group) ... *)
+Theorem C13_filter_results_removed_iff : forall mine r, fwf mine = true -> In r mine ->
+  (fr_keep mine r = false <-> exists g b, In g (fr_groups mine) /\ In r g /\ best_of g = Some b /\ b <> r).
+Proof. exact C13_filter_keep_iff. Qed.
+Print Assumptions C13_filter_results_removed_iff.
+
+(* ... best_of picks a member with the highest score ... *)
+Theorem C13_filter_results_best_of : forall g b, best_of g = Some b -> In b g /\ forall x, In x g -> f_sc x <= f_sc b.
+Proof. exact fr_best_of_spec. Qed.
+Print Assumptions C13_filter_results_best_of.
+
+(* ... and a gene with fewer than two profiles of the equivalence group is left alone *)
+Theorem C13_filter_results_untouched : forall eqg s mine, competing eqg mine = false ->
+  fr_cds eqg (Ok s) mine = (Ok s, mine).
+Proof. exact fr_cds_not_competing. Qed.
+Print Assumptions C13_filter_results_untouched.
+
+(* no two survivors of a gene overlap by more than 20 (every input order, ties included) *)
+Theorem C13_filter_results_no_overlap : forall mine x y, fwf mine = true ->
+  In x (filter (fr_keep mine) mine) -> In y (filter (fr_keep mine) mine) -> fov x y = false.
+Proof. exact fr_survivors_disjoint. Qed.
+Print Assumptions C13_filter_results_no_overlap.
+
+(* the best hit of a connected component survives, for every input order (scores pairwise distinct) *)
+Theorem C13_filter_results_best_survives : forall mine h, fwf mine = true -> distinct_scores mine = true ->
+  In h mine -> comp_best mine h = true -> fr_keep mine h = true.
+Proof. exact fr_best_survives. Qed.
+Print Assumptions C13_filter_results_best_survives.
+
+(* the decidable specification is the mathematical one: fcomp is the connected component, comp_best
+   = "scores at least as high as every hit connected to it" *)
+Theorem C13_filter_results_spec_sound : forall cds h, fwf cds = true -> In h cds ->
+  (forall x, In x (fcomp cds h) <-> fconn cds h x) /\
+  (comp_best cds h = true <-> forall o, fconn cds h o -> f_sc o <= f_sc h).
+Proof. exact C13_comp_best_proof. Qed.
+Print Assumptions C13_filter_results_spec_sound.
+
+(* (a)+(b) under the guard (every group lies in a group containing every group it meets; scores
+   pairwise distinct): the step returns exactly what the property demands - of every component the
+   best hit, everything else untouched (fr_step_spec, the function the check evaluates, fn 105) *)
+Theorem C13_filter_results_guarded : forall eqg results removed mine r' m' app grd,
+  fr_step_spec eqg results mine = (r', m', app, grd) -> app = true -> grd = true ->
+  fr_J (results, mine, removed) ->
+  exists removed', fr_cds eqg (Ok (results, removed)) mine = (Ok (r', removed'), m').
+Proof. exact fr_cds_meets_spec. Qed.
+Print Assumptions C13_filter_results_guarded.
+
+(* (c) under the guard the survivors are the same for every order of the gene's hit list *)
+Theorem C13_filter_results_order_independent_guarded : forall mine mine2,
+  Permutation mine mine2 -> fwf mine = true -> fwf mine2 = true ->
+  distinct_scores mine = true -> distinct_scores mine2 = true ->
+  groups_guard (fr_groups mine) = true -> groups_guard (fr_groups mine2) = true ->
+  forall h, In h (filter (fr_keep mine) mine) <-> In h (filter (fr_keep mine2) mine2).
+Proof. exact fr_order_independent_guarded. Qed.
+Print Assumptions C13_filter_results_order_independent_guarded.
+
+(* ---- hmmer.remove_overlapping: ranking_stats is a strict total order on hits with positive score
+   and cutoff ... *)
+Theorem C13_hmmer_rank_total_order : forall cut,
+  (forall a, rank_lt cut a a = false) /\
+  (forall a b c, hh_pos cut a -> hh_pos cut b -> hh_pos cut c ->
+     rank_lt cut a b = true -> rank_lt cut b c = true -> rank_lt cut a c = true) /\
+  (forall a b, hh_pos cut a -> hh_pos cut b -> rank_lt cut a b = false -> rank_lt cut b a = false -> a = b).
+Proof. exact C13_rank_order_proof. Qed.
+Print Assumptions C13_hmmer_rank_total_order.
+
+(* ... the hit C13_hmmer_best_kept keeps is the best of its group: highest score/cutoff, then longest,
+   then earliest, then least identifier *)
+Theorem C13_hmmer_rank_head_best : forall cut G b rest,
+  (forall h, In h G -> hh_pos cut h) -> sort_by (rank_lt cut) G = b :: rest ->
+  In b G /\ forall x, In x G ->
+    cut (h_id b) * h_sc x <= cut (h_id x) * h_sc b /\
+    (cut (h_id b) * h_sc x = cut (h_id x) * h_sc b -> hh_len x <= hh_len b /\
+     (hh_len x = hh_len b -> h_st b <= h_st x /\ (h_st b = h_st x -> h_id b <= h_id x))).
+Proof. exact rank_head_best_spelled. Qed.
+Print Assumptions C13_hmmer_rank_head_best.
+
+(* "a hit is dropped only if a better-ranked overlapping hit is kept", in full for hmmer *)
+Theorem C13_hmmer_dropped_has_better_kept : forall limit cutoffs hits out,
+  hmmer_remove_overlapping limit cutoffs hits = Ok out ->
+  (forall h, In h hits -> hh_pos (cut_of cutoffs) h) ->
+  forall x, In x hits -> ~ In x out ->
+  exists k, In k out /\ conflict limit x k = true /\ rank_lt (cut_of cutoffs) k x = true.
+Proof. exact hmmer_dropped_has_better_kept. Qed.
+Print Assumptions C13_hmmer_dropped_has_better_kept.
+
+(* within a group: kept iff no better-ranked kept hit conflicts *)
+Theorem C13_hmmer_kept_iff : forall limit cut G, (forall h, In h G -> hh_pos cut h) ->
+  forall x, In x (best_of_group limit cut G) <->
+    (In x G /\ forall k, In k (best_of_group limit cut G) -> rank_lt cut k x = true -> conflict limit x k = false).
+Proof. exact hmmer_kept_iff. Qed.
+Print Assumptions C13_hmmer_kept_iff.
+
+(* ---- "the merge of same-profile fragments ..., spanning them, with their best score": every
+   returned hit has a non-empty list of input fragments of its profile whose least start, greatest
+   end, best score and least e-value it carries (after the repair 690258f7) *)
+Theorem C13_merge_best_score : forall nb L reg l out h, refine_gene nb L reg l = Ok out -> In h out ->
+  exists cs, cs <> [] /\
+    (forall c, In c cs -> In c l /\ prof c = prof h /\ sc c <= sc h /\ ev h <= ev c /\ st h <= st c /\ en c <= en h) /\
+    (exists c, In c cs /\ sc c = sc h) /\ (exists c, In c cs /\ ev c = ev h) /\
+    (exists c, In c cs /\ st c = st h) /\ (exists c, In c cs /\ en c = en h).
+Proof. exact refine_gene_best_of_fragments. Qed.
+Print Assumptions C13_merge_best_score.
+
+Theorem C13_merge_fields : forall a b,
+  sc (merge a b) = Z.max (sc a) (sc b) /\ ev (merge a b) = Z.min (ev a) (ev b) /\
+  st (merge a b) = Z.min (st a) (st b) /\ en (merge a b) = Z.max (en a) (en b).
+Proof. exact merge_best_score. Qed.
+Print Assumptions C13_merge_fields.
+
+(* ---- F21 narrowed: "no two returned hits overlap by more than the margin" HOLDS whenever the list
+   handed to _remove_overlapping has monotone overlap (in list order a..b..c: c overlaps a beyond the
+   margin only if b does) - whole call, both modes; the finding class is the complement *)
+Theorem C13_pairwise_margin_guarded : forall nb t l out g hs,
+  refine_table nb t l = Ok out -> margin_guard_all nb (plen t) l = true -> In (g, hs) out ->
+  pairwise_margin (plen t) hs = true.
+Proof. exact refine_table_pairwise_guarded. Qed.
+Print Assumptions C13_pairwise_margin_guarded.
+
+Theorem C13_pairwise_margin_guarded_gene : forall nb L reg l out,
+  refine_gene nb L reg l = Ok out -> margin_guard nb L l = true -> pairwise_margin L out = true.
+Proof. exact refine_gene_pairwise_guarded. Qed.
+Print Assumptions C13_pairwise_margin_guarded_gene.
+
+(* the guard is exactly the stated condition ... *)
+Theorem C13_margin_guard_iff : forall L l, mono_ovl L l = true <->
+  (forall a b c, sub [a; b; c] l -> ovl L c a = true -> ovl L b a = true).
+Proof. exact mono_ovl_iff. Qed.
+Print Assumptions C13_margin_guard_iff.
+
+(* ... and holds in particular when all profiles of the gene's hits have one length *)
+Theorem C13_pairwise_margin_uniform : forall nb L reg l out,
+  refine_gene nb L reg l = Ok out -> uniform_len L l = true -> pairwise_margin L out = true.
+Proof. exact refine_gene_pairwise_uniform. Qed.
+Print Assumptions C13_pairwise_margin_uniform.
+
+(* ---- non-vacuity of the new implications *)
+(* a chain A-B-C-D listed as A D B C: two groups, the guard holds, one survivor *)
+Example C13_ex_filter_guard :
+  let mine := [mkFH 0 0 0 100 20 0; mkFH 3 3 210 310 200 3; mkFH 1 1 70 170 40 1; mkFH 2 2 140 240 60 2] in
+  fwf mine = true /\ distinct_scores mine = true /\ competing [0; 1] mine = true /\
+  length (fr_groups mine) = 2%nat /\ groups_guard (fr_groups mine) = true /\
+  fr_step_spec [0; 1] mine mine = ([mkFH 3 3 210 310 200 3], [mkFH 3 3 210 310 200 3], true, true) /\
+  fst (fr_cds [0; 1] (Ok (mine, [])) mine) = Ok ([mkFH 3 3 210 310 200 3], [2; 1; 0]).
+Proof. vm_compute. repeat split; reflexivity. Qed.
+Example C13_ex_filter_closed_group :
+  let mine := [mkFH 0 0 0 100 20 0; mkFH 3 3 210 310 200 3; mkFH 1 1 70 170 40 1; mkFH 2 2 140 240 60 2] in
+  exists g, In g (fr_groups mine) /\ fclosed (fr_groups mine) g = true /\ length g = 4%nat.
+Proof. eexists. split; [left; reflexivity|]. split; vm_compute; reflexivity. Qed.
+Example C13_ex_filter_witness_guard_false : exists gs, overlapping_groups fr_wit = Ok gs /\ groups_guard gs = false.
+Proof. exact fr_guard_rejects_witness. Qed.
+Example C13_ex_filter_J : fr_J ([mkFH 0 0 0 100 20 0], [mkFH 0 0 0 100 20 0], []).
+Proof. intros i []. Qed.
+Example C13_ex_hmmer_dropped :
+  hmmer_remove_overlapping 10 [Some 40; Some 100] [mkHH 0 0 50 80; mkHH 1 20 70 100] = Ok [mkHH 0 0 50 80]
+  /\ conflict 10 (mkHH 1 20 70 100) (mkHH 0 0 50 80) = true
+  /\ rank_lt (cut_of [Some 40; Some 100]) (mkHH 0 0 50 80) (mkHH 1 20 70 100) = true.
+Proof. vm_compute. repeat split; reflexivity. Qed.
+Example C13_ex_margin_guard_true :
+  let L := fun p => if p =? 1 then 100 else 10 in
+  let l := [mkHit 0 0 30 1 100; mkHit 1 28 120 1 80; mkHit 2 29 140 1 120] in
+  margin_guard true L l = true /\ uniform_len L l = false /\
+  refine_gene true L (fun _ => false) l = Ok [mkHit 0 0 30 1 100; mkHit 2 29 140 1 120].
+Proof. vm_compute. repeat split; reflexivity. Qed.
+Example C13_ex_margin_guard_false_F21 :
+  margin_guard true (fun p => if p =? 1 then 100 else 10)
+    [mkHit 0 0 30 1 100; mkHit 1 15 120 1 80; mkHit 2 16 40 1 120] = false.
+Proof. vm_compute. reflexivity. Qed.
+
+(* the same as the boolean the check evaluates on every hmmer output (fourth bit of fn 103) *)
+Theorem C13_hmmer_dropped_ok : forall limit cutoffs hits out,
+  hmmer_remove_overlapping limit cutoffs hits = Ok out ->
+  (forall h, In h hits -> hh_pos (cut_of cutoffs) h) ->
+  hh_dropped_ok limit (cut_of cutoffs) hits out = true.
+Proof. exact hmmer_dropped_ok. Qed.
+Print Assumptions C13_hmmer_dropped_ok.
